@@ -23,10 +23,17 @@ def run_shard(mod, prop, tier, seed, shard, shards, replay=None):
     import faulthandler
 
     faulthandler.enable()
-    if replay is not None:
-        mod.replay(ctx, replay)
-    else:
-        mod.run(ctx)
+    from .build import BuildFailed
+
+    try:
+        if replay is not None:
+            mod.replay(ctx, replay)
+        else:
+            mod.run(ctx)
+    except BuildFailed as e:
+        # every property quantifies over all legal expression graphs: one that cannot even be constructed (the
+        # generators only produce graphs the library documents as legal) refutes it for that graph
+        ctx.violation("graph-construction-raised", f"constructing a legal expression graph raised {e}", {"program": e.program, "construction_error": str(e)})
     return ctx.result()
 
 
